@@ -7,6 +7,7 @@ import (
 	"encoding/json"
 	"fmt"
 	"os"
+	"sort"
 	"strings"
 	"testing"
 )
@@ -77,18 +78,635 @@ func vC12Run(t *testing.T, gen func(e *vEnv, r *vRand) []vCase, exec func(t *tes
 	}
 }
 
-func vC12Gen(e *vEnv, r *vRand) []vCase {
-	w := `{"type":"welcome","welcome":{"version":"1.0","features":["federation"]}}`
-	h := `{"id":"$HID1","type":"hello","hello":{"version":"2.0","sessionid":"remote-sid","resumeid":"remote-resume","userid":"u"}}`
-	rm := `{"id":"join1","type":"room","room":{"roomid":"room-L"}}`
-	return []vCase{
-		{Ops: []string{"start rid=0 hide=0 feat=1", "peer " + vEnc(w), "peer " + vEnc(h), "peer " + vEnc(rm), "local msg", "probe", "drop tcp", "peer " + vEnc(w), "probe"}},
-		{Ops: []string{"start rid=0 hide=0 feat=0", "probe"}},
-		{Ops: []string{"start rid=0 hide=0 feat=1", "peerwf " + vEnc(w), "probe"}},
-		{Ops: []string{"start rid=0 hide=0 feat=1", "peer " + vEnc(w), "peerwf " + vEnc(`{"type":"bogus"}`), "probe", "expire"}},
-		{Ops: []string{"start rid=0 hide=0 feat=1", "peer " + vEnc(w), "peerwf " + vEnc(`{"id":"$HID1","type":"error","error":{"code":"x","message":"y"}}`), "probe"}},
-		{Ops: []string{"start rid=0 hide=0 feat=1", "peer " + vEnc(`{"type":"welcome"}`), "probe"}},
+// ---------- the decoded shape of a document (input of the Lean model) ----------
+//
+// The document is decoded by the real decoder (json.Unmarshal into ServerMessage,
+// i.e. the easyjson code the federation client uses); the blobs are viewed the way
+// the code views them.  Token grammar: see Driver/C12.lean.
+
+func vC12B(b bool) string {
+	if b {
+		return "1"
 	}
+	return "0"
+}
+
+func vC12OptStr(v interface{}) []string {
+	if s, ok := v.(string); ok {
+		return []string{"+", vEnc(s)}
+	}
+	return []string{"-"}
+}
+
+func vC12Generic(raw json.RawMessage) map[string]interface{} {
+	var v interface{}
+	if len(raw) == 0 || json.Unmarshal(raw, &v) != nil {
+		return nil
+	}
+	m, _ := v.(map[string]interface{})
+	return m
+}
+
+func vC12Party(typ string, sid string, present bool) []string {
+	if !present {
+		return []string{"-"}
+	}
+	return []string{"P", vEnc(typ), vEnc(sid)}
+}
+
+func vC12BodyShape(sender *MessageServerMessageSender, recipient *MessageClientMessageRecipient, data json.RawMessage, control bool) []string {
+	t := []string{"B"}
+	if sender != nil {
+		t = append(t, vC12Party(sender.Type, sender.SessionId, true)...)
+	} else {
+		t = append(t, "-")
+	}
+	if recipient != nil {
+		t = append(t, vC12Party(recipient.Type, recipient.SessionId, true)...)
+	} else {
+		t = append(t, "-")
+	}
+	t = append(t, vC12B(len(data) == 0))
+	var ao AnswerOfferMessage
+	aoOk := len(data) > 0 && json.Unmarshal(data, &ao) == nil
+	if !aoOk {
+		ao = AnswerOfferMessage{}
+	}
+	t = append(t, vC12B(aoOk), vEnc(ao.Type), vEnc(ao.From), vEnc(ao.To))
+	var md MessageServerMessageData
+	t = append(t, vC12B(len(data) > 0 && json.Unmarshal(data, &md) == nil && md.Type == "nickChanged"))
+	fmOk := false
+	var peer interface{}
+	if len(data) > 0 && data[0] == '{' {
+		var mm map[string]interface{}
+		if json.Unmarshal(data, &mm) == nil {
+			if a, found := mm["action"]; found && a == "forceMute" {
+				fmOk = true
+				peer = mm["peerId"]
+			}
+		}
+	}
+	t = append(t, vC12B(fmOk))
+	t = append(t, vC12OptStr(peer)...)
+	g := vC12Generic(data)
+	if g == nil {
+		t = append(t, "~", "~")
+	} else if control {
+		t = append(t, vC12Str(g, "peerId"), "~")
+	} else {
+		t = append(t, vC12Str(g, "from"), vC12Str(g, "to"))
+	}
+	return t
+}
+
+func vC12Entries(l []map[string]interface{}) []string {
+	t := []string{fmt.Sprint(len(l))}
+	for _, e := range l {
+		t = append(t, "e")
+		t = append(t, vC12OptStr(e["sessionId"])...)
+		t = append(t, vC12OptStr(e["sessionid"])...)
+	}
+	return t
+}
+
+func vC12RoomEvShape(r *RoomEventServerMessage) []string {
+	if r == nil {
+		return []string{"-"}
+	}
+	t := []string{"U", vEnc(r.RoomId)}
+	t = append(t, vC12Entries(r.Users)...)
+	return append(t, vC12Entries(r.Changed)...)
+}
+
+func vC12Shape(doc string) []string {
+	var m ServerMessage
+	if err := json.Unmarshal([]byte(doc), &m); err != nil {
+		return []string{"X"}
+	}
+	t := []string{"M", vEnc(m.Id), vEnc(m.Type)}
+	if e := m.Error; e != nil {
+		t = append(t, "E", vEnc(e.Code), vC12B(len(e.Details) == 0))
+		var d RoomErrorDetails
+		if len(e.Details) > 0 && json.Unmarshal(e.Details, &d) == nil && d.Room != nil {
+			t = append(t, "+", vEnc(d.Room.RoomId))
+		} else {
+			t = append(t, "-")
+		}
+		if g := vC12Generic(e.Details); g != nil {
+			t = append(t, vC12Str(g, "room", "roomid"))
+		} else {
+			t = append(t, "~")
+		}
+	} else {
+		t = append(t, "-")
+	}
+	if w := m.Welcome; w != nil {
+		t = append(t, "W", fmt.Sprint(len(w.Features)))
+		for _, f := range w.Features {
+			t = append(t, vEnc(f))
+		}
+	} else {
+		t = append(t, "-")
+	}
+	if h := m.Hello; h != nil {
+		t = append(t, "H", vEnc(h.SessionId), vEnc(h.ResumeId))
+	} else {
+		t = append(t, "-")
+	}
+	t = append(t, vC12B(m.Bye != nil))
+	if r := m.Room; r != nil {
+		t = append(t, "R", vEnc(r.RoomId))
+	} else {
+		t = append(t, "-")
+	}
+	if b := m.Message; b != nil {
+		t = append(t, vC12BodyShape(b.Sender, b.Recipient, b.Data, false)...)
+	} else {
+		t = append(t, "-")
+	}
+	if b := m.Control; b != nil {
+		t = append(t, vC12BodyShape(b.Sender, b.Recipient, b.Data, true)...)
+	} else {
+		t = append(t, "-")
+	}
+	if e := m.Event; e != nil {
+		t = append(t, "V", vEnc(e.Target), vEnc(e.Type), fmt.Sprint(len(e.Join)))
+		for _, j := range e.Join {
+			if j == nil {
+				t = append(t, "-")
+			} else {
+				t = append(t, "J", vEnc(j.SessionId))
+			}
+		}
+		t = append(t, fmt.Sprint(len(e.Leave)))
+		for _, x := range e.Leave {
+			t = append(t, vEnc(x))
+		}
+		changeNil := false
+		for _, x := range e.Change {
+			changeNil = changeNil || x == nil
+		}
+		t = append(t, vC12B(changeNil), vC12B(e.SwitchTo != nil), vC12B(e.Resumed != nil && *e.Resumed))
+		t = append(t, vC12RoomEvShape(e.Invite)...)
+		if e.Disinvite != nil {
+			t = append(t, vC12RoomEvShape(&e.Disinvite.RoomEventServerMessage)...)
+		} else {
+			t = append(t, "-")
+		}
+		t = append(t, vC12RoomEvShape(e.Update)...)
+		if f := e.Flags; f != nil {
+			t = append(t, "F", vEnc(f.RoomId), vEnc(f.SessionId))
+		} else {
+			t = append(t, "-")
+		}
+		if g := e.Message; g != nil {
+			t = append(t, "G", vEnc(g.RoomId))
+		} else {
+			t = append(t, "-")
+		}
+	} else {
+		t = append(t, "-")
+	}
+	return append(t, vC12B(m.TransientData != nil), vC12B(m.Internal != nil), vC12B(m.Dialout != nil))
+}
+
+func vC12PeerOp(kind, doc string) string {
+	return kind + " " + vEnc(doc) + " " + strings.Join(vC12Shape(doc), " ")
+}
+
+// ---------- generator ----------
+
+type vC12Obj = map[string]interface{}
+
+func vC12JSON(v interface{}) string {
+	data, err := json.Marshal(v)
+	if err != nil {
+		panic(err)
+	}
+	return string(data)
+}
+
+var (
+	vC12Sids  = []string{vC12RemoteSid, vC12RemoteSid, "other-sid", "@LSID@", "", "third-sid"}
+	vC12Rooms = []string{vC12RemoteRoom, vC12RemoteRoom, vC12LocalRoom, vC12LocalRoom, "other-room", ""}
+)
+
+func vC12User(r *vRand) vC12Obj {
+	u := vC12Obj{"userId": "u" + fmt.Sprint(r.intn(3)), "inCall": r.intn(8)}
+	switch r.intn(8) {
+	case 0:
+		u["sessionid"] = r.pick(vC12Sids)
+	case 1:
+	case 2:
+		u["sessionId"] = r.intn(5)
+	default:
+		u["sessionId"] = r.pick(vC12Sids)
+	}
+	if r.chance(1, 3) {
+		u["actorType"] = r.pick([]string{"users", "federated_users", "guests"})
+		u["actorId"] = "actor" + r.pick([]string{"", "@127.0.0.1", "@example.com"})
+	}
+	return u
+}
+
+func vC12Users(r *vRand) []interface{} {
+	n := r.intn(4)
+	l := make([]interface{}, 0, n)
+	for i := 0; i < n; i++ {
+		l = append(l, vC12User(r))
+	}
+	return l
+}
+
+func vC12Entry(r *vRand) vC12Obj {
+	e := vC12Obj{"sessionid": r.pick(vC12Sids), "userid": "u"}
+	if r.chance(1, 2) {
+		e["user"] = vC12Obj{"displayname": "Name", "x": 1}
+	}
+	if r.chance(1, 4) {
+		e["user"] = vC12Obj{"displayname": "Name"}
+	}
+	return e
+}
+
+// vC12Valid returns a well-formed message of a random kind.
+func vC12Valid(r *vRand) vC12Obj {
+	id := func(m vC12Obj) vC12Obj {
+		switch r.intn(6) {
+		case 0:
+			m["id"] = "@HID1@"
+		case 1:
+			m["id"] = "@HID2@"
+		case 2:
+			m["id"] = "join1"
+		case 3:
+			m["id"] = "x" + fmt.Sprint(r.intn(100))
+		}
+		return m
+	}
+	party := func() vC12Obj {
+		p := vC12Obj{"type": r.pick([]string{"session", "session", "user", "room"})}
+		if r.chance(5, 6) {
+			p["sessionid"] = r.pick(vC12Sids)
+		}
+		return p
+	}
+	body := func(control bool) vC12Obj {
+		b := vC12Obj{}
+		if r.chance(9, 10) {
+			b["sender"] = party()
+		}
+		if r.chance(2, 3) {
+			b["recipient"] = party()
+		}
+		switch k := r.intn(9); {
+		case k == 0:
+		case k == 1:
+			b["data"] = "text"
+		case k == 2:
+			b["data"] = []interface{}{1, 2}
+		case k == 3:
+			b["data"] = vC12Obj{"type": "nickChanged", "payload": vC12Obj{"name": "x"}}
+		case k == 4:
+			b["data"] = vC12Obj{"type": "chat", "chat": vC12Obj{"refresh": true}}
+		case control || k == 5:
+			d := vC12Obj{"action": r.pick([]string{"forceMute", "forceMute", "other"})}
+			switch r.intn(4) {
+			case 0:
+			case 1:
+				d["peerId"] = r.intn(9)
+			default:
+				d["peerId"] = r.pick(vC12Sids)
+			}
+			b["data"] = d
+		default:
+			d := vC12Obj{"type": r.pick([]string{"offer", "answer", "candidate", "offer"}), "roomType": "video", "payload": vC12Obj{"sdp": "v=0"}}
+			if r.chance(4, 5) {
+				d["from"] = r.pick(vC12Sids)
+			}
+			if r.chance(4, 5) {
+				d["to"] = r.pick(vC12Sids)
+			}
+			if r.chance(1, 10) {
+				d["from"] = 7
+			}
+			b["data"] = d
+		}
+		return b
+	}
+	roomEv := func() vC12Obj {
+		e := vC12Obj{"roomid": r.pick(vC12Rooms)}
+		if r.chance(1, 2) {
+			e["properties"] = vC12Obj{"name": "n"}
+		}
+		return e
+	}
+	switch r.intn(26) {
+	case 0:
+		return vC12Obj{"type": "welcome", "welcome": vC12Obj{"version": "1.0", "features": [][]string{
+			{"federation"}, {" federation\t"}, {"audio", "federation"}, {}, {"other"}, {"federationx"}}[r.intn(6)]}}
+	case 1, 2:
+		return id(vC12Obj{"type": "hello", "hello": vC12Obj{"version": "2.0", "sessionid": r.pick([]string{vC12RemoteSid, vC12RemoteSid, ""}),
+			"resumeid": r.pick([]string{vC12RemoteRes, vC12RemoteRes, ""}), "userid": "u"}})
+	case 3, 4:
+		e := vC12Obj{"code": r.pick([]string{"no_such_session", "already_joined", "already_joined", "not_allowed", ""}), "message": "m"}
+		switch r.intn(5) {
+		case 0:
+			e["details"] = vC12Obj{"room": vC12Obj{"roomid": r.pick(vC12Rooms), "properties": vC12Obj{}}}
+		case 1:
+			e["details"] = vC12Obj{"room": vC12Obj{"roomid": r.pick(vC12Rooms)}}
+		case 2:
+			e["details"] = r.pick([]string{"str", ""})
+		case 3:
+			e["details"] = vC12Obj{"room": nil}
+		}
+		return id(vC12Obj{"type": "error", "error": e})
+	case 5:
+		m := vC12Obj{"type": "bye"}
+		if r.chance(1, 2) {
+			m["bye"] = vC12Obj{"reason": "room_join_timeout"}
+		}
+		return m
+	case 6, 7:
+		return id(vC12Obj{"type": "room", "room": roomEv()})
+	case 8, 9, 10:
+		return id(vC12Obj{"type": "message", "message": body(false)})
+	case 11, 12:
+		return id(vC12Obj{"type": "control", "control": body(true)})
+	case 13, 14:
+		u := roomEv()
+		if r.chance(3, 4) {
+			u["users"] = vC12Users(r)
+		}
+		if r.chance(3, 4) {
+			u["changed"] = vC12Users(r)
+		}
+		if r.chance(1, 4) {
+			u["incall"] = 3
+			u["all"] = true
+		}
+		return vC12Obj{"type": "event", "event": vC12Obj{"target": "participants", "type": "update", "update": u}}
+	case 15:
+		return vC12Obj{"type": "event", "event": vC12Obj{"target": "participants", "type": "flags",
+			"flags": vC12Obj{"roomid": r.pick(vC12Rooms), "sessionid": r.pick(vC12Sids), "flags": r.intn(4)}}}
+	case 16:
+		return vC12Obj{"type": "event", "event": vC12Obj{"target": r.pick([]string{"room", "participants"}), "type": "message",
+			"message": vC12Obj{"roomid": r.pick(vC12Rooms), "data": vC12Obj{"type": "chat", "chat": vC12Obj{"comment": vC12Obj{"actorDisplayName": "x", "message": "hi"}}}}}}
+	case 17, 18:
+		n := 1 + r.intn(3)
+		l := make([]interface{}, 0, n)
+		for i := 0; i < n; i++ {
+			l = append(l, vC12Entry(r))
+		}
+		return vC12Obj{"type": "event", "event": vC12Obj{"target": "room", "type": r.pick([]string{"join", "join", "join", "change"}),
+			r.pick([]string{"join", "join", "join", "change"}): l}}
+	case 19:
+		n := r.intn(3)
+		l := make([]interface{}, 0, n)
+		for i := 0; i <= n; i++ {
+			l = append(l, r.pick(vC12Sids))
+		}
+		return vC12Obj{"type": "event", "event": vC12Obj{"target": "room", "type": "leave", "leave": l}}
+	case 20:
+		t := r.pick([]string{"invite", "disinvite", "update"})
+		ev := roomEv()
+		if t == "disinvite" {
+			ev["reason"] = "disinvited"
+		}
+		return vC12Obj{"type": "event", "event": vC12Obj{"target": "roomlist", "type": t, t: ev}}
+	case 21:
+		switch r.intn(4) {
+		case 0:
+			return vC12Obj{"type": "event", "event": vC12Obj{"target": "room", "type": "switchto", "switchto": vC12Obj{"roomid": "x"}}}
+		case 1:
+			return vC12Obj{"type": "event", "event": vC12Obj{"target": "room", "type": "federation_resumed", "resumed": r.chance(1, 2)}}
+		case 2:
+			return vC12Obj{"type": "event", "event": vC12Obj{"target": "room", "type": "delete"}}
+		}
+		return vC12Obj{"type": "event", "event": vC12Obj{"target": r.pick([]string{"other", "", "room"}), "type": r.pick([]string{"x", ""})}}
+	case 22:
+		return vC12Obj{"type": "transient", "transient": vC12Obj{"type": "set", "key": "k", "value": 1}}
+	case 23:
+		return r.pickObj([]vC12Obj{
+			{"type": "internal", "internal": vC12Obj{"type": "dialout", "dialout": vC12Obj{"roomid": "r", "backend": "b", "request": vC12Obj{}}}},
+			{"type": "dialout", "dialout": vC12Obj{"type": "status", "roomid": "r", "status": vC12Obj{"status": "accepted", "callid": "c"}}},
+		})
+	case 24:
+		return id(vC12Obj{"type": r.pick([]string{"foo", "WELCOME", "Hello", " room", "event "})})
+	}
+	return vC12Obj{"welcome": vC12Obj{"version": "1.0", "features": []string{"federation"}}}
+}
+
+func (r *vRand) pickObj(xs []vC12Obj) vC12Obj { return xs[r.intn(len(xs))] }
+
+// vC12Paths lists the paths to every member / element of a JSON tree.
+func vC12Paths(v interface{}, cur []interface{}, out *[][]interface{}) {
+	switch x := v.(type) {
+	case map[string]interface{}:
+		keys := make([]string, 0, len(x))
+		for k := range x {
+			keys = append(keys, k)
+		}
+		sort.Strings(keys)
+		for _, k := range keys {
+			p := append(append([]interface{}{}, cur...), k)
+			*out = append(*out, p)
+			vC12Paths(x[k], p, out)
+		}
+	case []interface{}:
+		for i := range x {
+			p := append(append([]interface{}{}, cur...), i)
+			*out = append(*out, p)
+			vC12Paths(x[i], p, out)
+		}
+	}
+}
+
+var vC12Wrong = []interface{}{nil, nil, nil, 5, "x", "", []interface{}{}, []interface{}{nil}, map[string]interface{}{}, true, 1.5,
+	[]interface{}{map[string]interface{}{}}, map[string]interface{}{"sessionId": 1}}
+
+// vC12Mutate removes a member, or replaces it by null / a value of another type.
+func vC12Mutate(r *vRand, doc interface{}) interface{} {
+	var paths [][]interface{}
+	vC12Paths(doc, nil, &paths)
+	if len(paths) == 0 {
+		return doc
+	}
+	// shallow paths (the sub-objects) are the interesting ones
+	sort.SliceStable(paths, func(i, j int) bool { return len(paths[i]) < len(paths[j]) })
+	k := r.intn(len(paths))
+	if r.chance(1, 2) {
+		k = r.intn(1 + len(paths)/2)
+	}
+	p := paths[k]
+	del := r.chance(1, 3)
+	var repl interface{}
+	if !del {
+		repl = vC12Wrong[r.intn(len(vC12Wrong))]
+	}
+	var apply func(v interface{}, p []interface{}) interface{}
+	apply = func(v interface{}, p []interface{}) interface{} {
+		switch x := v.(type) {
+		case map[string]interface{}:
+			key := p[0].(string)
+			if len(p) == 1 {
+				if del {
+					delete(x, key)
+				} else {
+					x[key] = repl
+				}
+			} else {
+				x[key] = apply(x[key], p[1:])
+			}
+			return x
+		case []interface{}:
+			idx := p[0].(int)
+			if len(p) == 1 {
+				if del {
+					return append(x[:idx], x[idx+1:]...)
+				}
+				x[idx] = repl
+			} else {
+				x[idx] = apply(x[idx], p[1:])
+			}
+			return x
+		}
+		return v
+	}
+	return apply(doc, p)
+}
+
+func vC12Normalize(v interface{}) interface{} {
+	var out interface{}
+	json.Unmarshal([]byte(vC12JSON(v)), &out) // nolint
+	return out
+}
+
+var vC12Garbage = []string{"", " ", "null", "true", "0", "\"str\"", "[]", "{}", "[{}]", "{\"type\":5}", "{\"type\":null}", "{\"type\":[\"welcome\"]}",
+	"{\"type\":\"welcome\",\"welcome\":5}", "{\"type\":\"welcome\",\"welcome\":\"x\"}", "{\"type\":\"welcome\",\"welcome\":[]}",
+	"{\"type\":\"event\",\"event\":{\"target\":\"room\",\"type\":\"join\",\"join\":[null]}}",
+	"{\"type\":\"event\",\"event\":{\"target\":\"room\",\"type\":\"join\",\"join\":{}}}",
+	"{\"type\":\"event\",\"event\":{\"target\":\"participants\",\"type\":\"update\",\"update\":{\"roomid\":\"r\",\"users\":[null,{\"sessionId\":null},{\"sessionId\":{}}]}}}",
+	"{\"type\":\"event\",\"event\":{\"target\":\"participants\",\"type\":\"update\",\"update\":{\"roomid\":\"r\",\"changed\":[{}]}}}",
+	"{\"type\":\"welcome\",\"type\":\"hello\"}", "{\"TYPE\":\"welcome\"}", "\xff\xfe{\"type\":\"welcome\"}", "{\"type\":\"wel\xffcome\"}",
+	"{\"type\":\"message\",\"message\":{\"data\":nul}}", "{\"type\":\"message\",\"message\":{\"sender\":null,\"data\":null}}",
+	"{\"type\":\"room\",\"room\":{\"roomid\":5}}", "{\"type\":\"room\",\"room\":null,\"room\":{\"roomid\":\"room-R\"}}",
+	"{\"id\":5,\"type\":\"bye\"}", "{\"type\":\"error\",\"error\":{\"code\":\"already_joined\",\"details\":{\"room\":{\"roomid\":5}}}}"}
+
+// vC12Hostile produces one document a hostile peer might send.
+func vC12Hostile(r *vRand) string {
+	switch k := r.intn(100); {
+	case k < 22:
+		return vC12JSON(vC12Valid(r))
+	case k < 70:
+		doc := vC12Normalize(vC12Valid(r))
+		for i := 0; i <= r.intn(2); i++ {
+			doc = vC12Mutate(r, doc)
+		}
+		return vC12JSON(doc)
+	case k < 80:
+		s := vC12JSON(vC12Valid(r))
+		return s[:r.intn(len(s))] // truncated
+	case k < 86:
+		b := []byte(vC12JSON(vC12Valid(r)))
+		for i := 0; i <= r.intn(3); i++ {
+			b[r.intn(len(b))] = byte(r.intn(256))
+		}
+		return string(b)
+	case k < 90:
+		s := vC12JSON(vC12Valid(r))
+		return r.pick([]string{"[", "{\"x\":", " ", "\n"}) + s + r.pick([]string{"]", "}", "x", " "})
+	case k < 92:
+		return strings.Repeat("[", 200+r.intn(2000)) + strings.Repeat("]", r.intn(2200))
+	}
+	return r.pick(vC12Garbage)
+}
+
+func vC12Gen(e *vEnv, r *vRand) []vCase {
+	welcome := `{"type":"welcome","welcome":{"version":"1.0","features":["audio","federation"]}}`
+	hello := func(n int) string {
+		return fmt.Sprintf(`{"id":"@HID%d@","type":"hello","hello":{"version":"2.0","sessionid":%q,"resumeid":%q,"userid":"u"}}`, n, vC12RemoteSid, vC12RemoteRes)
+	}
+	room := func(rid bool) string {
+		rm := vC12LocalRoom
+		if rid {
+			rm = vC12RemoteRoom
+		}
+		return fmt.Sprintf(`{"id":"join1","type":"room","room":{"roomid":%q,"properties":{"a":1}}}`, rm)
+	}
+	n := e.scale(420, 5000)
+	var cases []vCase
+	for i := 0; i < n; i++ {
+		rr := r.fork()
+		rid, hide := rr.chance(1, 2), rr.chance(1, 3)
+		ops := []string{fmt.Sprintf("start rid=%s hide=%s feat=1", vC12B(rid), vC12B(hide))}
+		joined := []string{vC12PeerOp("peer", welcome), vC12PeerOp("peer", hello(1)), vC12PeerOp("peer", room(rid))}
+		stage := rr.intn(20)
+		switch {
+		case stage < 3: // before welcome
+		case stage < 6: // hello sent, no answer yet
+			ops = append(ops, joined[0])
+		case stage < 13: // joined
+			ops = append(ops, joined...)
+		case stage < 14: // leaving
+			ops = append(ops, joined...)
+			ops = append(ops, "local leave")
+		case stage < 15: // reconnecting, resume hello pending
+			ops = append(ops, joined...)
+			ops = append(ops, "drop "+rr.pick([]string{"tcp", "close", "rst"}), vC12PeerOp("peer", welcome))
+		case stage < 16: // resumed
+			ops = append(ops, joined...)
+			ops = append(ops, "drop tcp", "local msg", vC12PeerOp("peer", welcome), vC12PeerOp("peer", hello(2)))
+		case stage < 17: // resume refused, new session
+			ops = append(ops, joined...)
+			ops = append(ops, "drop tcp", vC12PeerOp("peer", welcome),
+				vC12PeerOp("peer", `{"id":"@HID2@","type":"error","error":{"code":"no_such_session","message":"gone"}}`), vC12PeerOp("peer", hello(3)))
+		case stage < 18: // joined, hello without session ids
+			ops = append(ops, joined[0], vC12PeerOp("peer", `{"id":"@HID1@","type":"hello","hello":{"version":"2.0","sessionid":"","resumeid":""}}`), joined[2])
+		case stage < 19: // not a federation server
+			ops[0] = fmt.Sprintf("start rid=%s hide=%s feat=0", vC12B(rid), vC12B(hide))
+		default: // the hello was refused: client closed with an error
+			ops = append(ops, joined[0], vC12PeerOp("peer", `{"id":"@HID1@","type":"error","error":{"code":"invalid_token","message":"no"}}`))
+		}
+		k := 1 + rr.intn(3)
+		slow := 0
+		for j := 0; j < k; j++ {
+			switch x := rr.intn(100); {
+			case x < 74:
+				ops = append(ops, vC12PeerOp("peer", vC12Hostile(rr)))
+			case x < 82 && slow < 2:
+				ops = append(ops, vC12PeerOp("peerwf", vC12Hostile(rr)))
+				slow++
+			case x < 84 && slow < 2:
+				// the messages whose handling writes to the peer, with the write failing
+				ops = append(ops, vC12PeerOp("peerwf", rr.pick([]string{welcome, hello(1), hello(2), `{"type":"unexpected"}`,
+					`{"id":"@HID1@","type":"error","error":{"code":"no_such_session"}}`, `{"id":"@HID1@","type":"error","error":{"code":"other"}}`,
+					`{"type":"welcome","welcome":{"version":"1.0"}}`, `{"type":"room","room":{"roomid":""}}`, `{"type":"bye"}`})))
+				slow++
+			case x < 88 && slow < 2:
+				ops = append(ops, "drop "+rr.pick([]string{"tcp", "close", "rst"}))
+				slow++
+			case x < 90:
+				ops = append(ops, "bin "+vEnc(vC12Hostile(rr)))
+			case x < 91 && slow < 2:
+				ops = append(ops, fmt.Sprintf("big %d", 65537+rr.intn(3000)))
+				slow++
+			case x < 94:
+				ops = append(ops, "local msg")
+			case x < 96:
+				ops = append(ops, "local leave")
+			default:
+				// follow the protocol
+				ops = append(ops, vC12PeerOp("peer", rr.pick([]string{welcome, hello(1), hello(2), room(rid), room(!rid)})))
+			}
+		}
+		ops = append(ops, "probe")
+		if rr.chance(1, 12) {
+			ops = append(ops, "expire")
+		}
+		cases = append(cases, vCase{Ops: ops})
+	}
+	return cases
 }
 
 func TestVerifC12(t *testing.T) {
